@@ -6,7 +6,8 @@ import Driver.Util
    c18 getters <cfg>                 -> ok <chunker> <size> <min> <max> <ev> <zstd> <tree packsize> <data packsize> <pcts>
    c18 packsize <cfg> <t|d> <cur>    -> ok <u32>                          PackSizer::from_config(..).pack_size()
    c18 seq <opts>;<opts>;…           -> ok <step>,… | <final cfg> | writes=<n>    init + apply_config sequence
-   c18 smoke <opts> <mu> <mr> <r|-> <seed>  -> ok | err:<Kind>            init → backup → check → restore → prune_plan
+   c18 smoke <opts>[;<opts>…] <mu> <mr> <r|-> <seed>  -> ok | err:<Kind>  init (→ apply_config …) → backup → check → restore → prune
+   c18 limits <mu> <mr> <flags> <packs>  -> ok <max_unused> <max_repack> <used> <total>   limits computed in decide_repack
    cfg / opts = comma list of key=value ("-" = nothing set); see `cfgKeys`. -/
 namespace Driver.C18
 open Rustic.Config Driver
@@ -101,6 +102,24 @@ def seqRun (st : Store) : List ConfigOptions → List String → List String × 
       | .error e => showFail e
     seqRun st' os (s :: acc)
 
+def parseLimit (s : String) : Option LimitOption :=
+  if s = "u" then some .unlimited
+  else if s.startsWith "s" then (s.drop 1).toNat?.map .size
+  else if s.startsWith "p" then (s.drop 1).toNat?.map .percentage
+  else none
+
+/-- one pack `<t|d><m|-><u|n><len>+…` → (sum of used blob lengths, sum of all blob lengths) -/
+def parsePack (s : String) : Option (Nat × Nat) :=
+  match s.toList with
+  | t :: m :: rest =>
+    if (t ≠ 't' ∧ t ≠ 'd') ∨ (m ≠ 'm' ∧ m ≠ '-') then none else
+    ((String.ofList rest).splitOn "+").foldlM (fun (acc : Nat × Nat) b =>
+      match b.toList with
+      | 'u' :: n => (String.ofList n).toNat?.map (fun n => (acc.1 + n, acc.2 + n))
+      | 'n' :: n => (String.ofList n).toNat?.map (fun n => (acc.1, acc.2 + n))
+      | _ => none) (0, 0)
+  | _ => none
+
 def handle : List String → String
   | ["apply", cfg, opts] =>
     match parseCfg cfg, parseOpts opts with
@@ -142,13 +161,23 @@ def handle : List String → String
         let (rs, st') := seqRun st os []
         "ok " ++ (if rs.isEmpty then "-" else ",".intercalate rs) ++ " | " ++ showCfg st'.config ++ s!" | writes={st'.writes}"
     | _ => "bad-op"
-  | ["smoke", opts, _mu, _mr, _flags, _seed] =>
-    match parseOpts opts with
-    | some o =>
+  | ["smoke", steps, _mu, _mr, _flags, _seed] =>
+    match (steps.splitOn ";").mapM parseOpts with
+    | some (o :: _) =>
       match initConfig 0 0 o with
       | .error e => showFail e
       | .ok _ => "ok"
-    | none => "bad-op"
+    | _ => "bad-op"
+  | ["limits", mu, mr, flags, packs] =>
+    match parseLimit mu, parseLimit mr, (packs.splitOn ",").mapM parsePack with
+    | some mu, some mr, some ps =>
+      if flags ≠ "-" ∧ ¬ flags.toList.all (fun c => c == 'a' || c == 'u') then "bad-op" else
+      let used := (ps.map (·.1)).foldl (· + ·) 0
+      let total := (ps.map (·.2)).foldl (· + ·) 0
+      -- decide_repack receives `repack_uncompressed || repack_all`
+      let rep := flags ≠ "-"
+      s!"ok {maxUnusedLimit rep mu used} {maxRepackLimit mr total} {used} {total}"
+    | _, _, _ => "bad-op"
   | _ => "bad-op"
 
 end Driver.C18
